@@ -148,6 +148,12 @@ type Case struct {
 	// AgeMS: pause between constructing/starting the exporter and the case's export call.
 	// Warmup: a first export, answered with success, is made through the same exporter
 	// instance before that pause.
+	// Life: what happened to the exporter before the case's export call.
+	//   ""                       constructed started (New)
+	//   shutdown_before_start    trace exporters: NewUnstarted -> Shutdown (a no-op) -> Start
+	//   start_twice              trace exporters: New -> Start again (returns an error, harmless)
+	//   shutdown_then_export     all six: New -> Shutdown -> the export (must not block)
+	Life string `json:"life,omitempty"`
 	// HugeRetryAfter (generator bookkeeping, the value is in the script): the case carries a
 	// Retry-After around / above 2^31 / 2^32 on a retryable answer.
 	HugeRetryAfter string `json:"huge_retry_after,omitempty"`
@@ -328,13 +334,34 @@ func (g *genCtx) retryableStep(t *rapid.T) Step {
 	return Step{Kind: "status", Code: oneOf(t, "code", httpRetryCodes...), RetryAfter: g.retryAfter(t, true), RetryInfoMS: -1}
 }
 
+// genHTTPStatus draws from everything a server or a proxy in front of it can
+// answer with, not from a menu: the statement's table names the retryable
+// statuses (429, 502, 503, 504), every other non-success status ends the
+// export. 2xx other than 200 are left out (whether 201/204 mean "delivered" is
+// not the statement's business), as are the 3xx a Go client follows.
+func genHTTPStatus(t *rapid.T) int {
+	switch pick(t, "status_class", 30, 8, 27, 35) {
+	case 0:
+		return oneOf(t, "code", httpCodes...)
+	case 1:
+		return oneOf(t, "code", 300, 304, 305, 306)
+	case 2:
+		return oneOf(t, "code", 400, 401, 402, 403, 404, 405, 406, 407, 408, 409, 410, 411, 412, 413, 414, 415, 416, 417, 418, 421, 422, 423, 424, 425, 426, 428, 429, 431, 444, 451, 499)
+	default:
+		return oneOf(t, "code", 500, 501, 502, 503, 504, 505, 506, 507, 508, 509, 510, 511, 520, 521, 522, 523, 524, 525, 526, 527, 529, 530, 598, 599)
+	}
+}
+
 func (g *genCtx) anyStatus(t *rapid.T) Step {
 	if g.grpc {
 		code := rng(t, "code", 0, 16)
+		if rng(t, "out_of_range_code", 0, 9) == 0 {
+			code = oneOf(t, "code", 17, 99) // not a defined codes.Code: not in the retryable table
+		}
 		ri := g.retryInfo(t)
 		return Step{Kind: "status", Code: code, RetryInfoMS: ri}
 	}
-	code := oneOf(t, "code", httpCodes...)
+	code := genHTTPStatus(t)
 	return Step{Kind: "status", Code: code, RetryAfter: g.retryAfter(t, httpRetryable(code)), RetryInfoMS: -1}
 }
 
@@ -364,6 +391,7 @@ func (g *genCtx) terminalStep(t *rapid.T) Step {
 					term = append(term, c)
 				}
 			}
+			term = append(term, 17, 99)
 			code := oneOf(t, "code", term...)
 			if code != int(codes.ResourceExhausted) && rapid.Bool().Draw(t, "detail_on_terminal") {
 				// RetryInfo on a non-retryable code does not make it retryable
@@ -371,7 +399,12 @@ func (g *genCtx) terminalStep(t *rapid.T) Step {
 			}
 			return Step{Kind: "status", Code: code, RetryInfoMS: -1}
 		}
-		return Step{Kind: "status", Code: oneOf(t, "code", httpTerminalCodes...), RetryAfter: g.retryAfter(t, false), RetryInfoMS: -1}
+		code := oneOf(t, "code", httpTerminalCodes...)
+		if rapid.Bool().Draw(t, "whole_range") {
+			for code = genHTTPStatus(t); code == 200 || httpRetryable(code); code = genHTTPStatus(t) {
+			}
+		}
+		return Step{Kind: "status", Code: code, RetryAfter: g.retryAfter(t, false), RetryInfoMS: -1}
 	}
 }
 
@@ -544,6 +577,17 @@ func genCase(isGRPC bool) func(*rapid.T) Case {
 			}
 		}
 		c.PlanDelayMS = rng(t, "plan_delay_ms", 0, 3)
+		if c.Exporter == "otlptracehttp" || c.Exporter == "otlptracegrpc" {
+			switch pick(t, "life", 65, 27, 8) {
+			case 1:
+				c.Life = "shutdown_before_start"
+			case 2:
+				c.Life = "start_twice"
+			}
+		}
+		if c.Plan == "none" && c.Interfere == 0 && c.AgeMS == 0 && c.HugeRetryAfter == "" && c.TimeoutMS == 0 && rng(t, "shutdown_then_export", 0, 39) == 0 {
+			c.Life = "shutdown_then_export"
+		}
 
 		slowBackoff := c.InitialMS >= 100
 		n := oneOf(t, "len", 1, 2, 2, 3, 3, 3, 4, 4, 5, 6)
@@ -725,6 +769,18 @@ func finite(c Case) bool {
 	if c.ShutdownMS < 0 || c.ShutdownMS > 2000 || c.Headers < 0 || c.Headers > 2 {
 		return false
 	}
+	switch c.Life {
+	case "", "shutdown_then_export":
+	case "shutdown_before_start", "start_twice":
+		if c.Exporter != "otlptracehttp" && c.Exporter != "otlptracegrpc" {
+			return false
+		}
+	default:
+		return false
+	}
+	if c.Life == "shutdown_then_export" && (c.Plan != "none" || c.Interfere != 0 || c.Warmup) {
+		return false
+	}
 	if c.AgeMS < 0 || c.AgeMS > 2000 || ((c.AgeMS > 0 || c.Warmup) && c.Plan != "none") {
 		return false
 	}
@@ -813,6 +869,7 @@ type observation struct {
 	cleanupStuck     bool          // closing the collector / the final Shutdown did not finish in time (harness side)
 	interf           []entry       // requests of the interfering exporter
 	interfErrs       []error       // results of the interfering exports
+	secondStartErr   error         // life start_twice: what the second Start returned
 	warmErr          error         // result of the warm-up export
 	warmSeen         int           // requests the collector saw during the warm-up export
 	planFired        bool
@@ -842,7 +899,7 @@ func execute(c Case) (ob observation) {
 	}
 	rc := retryCfg{Enabled: c.RetryEnabled, Initial: time.Duration(c.InitialMS) * time.Millisecond,
 		MaxInterval: time.Duration(c.MaxIntervalMS) * time.Millisecond, MaxElapsed: time.Duration(c.MaxElapsedMS) * time.Millisecond}
-	opts := handleOpts{rc: rc, timeout: time.Duration(c.TimeoutMS) * time.Millisecond, gz: c.Gzip, items: c.Items, mark: markMain}
+	opts := handleOpts{life: c.Life, rc: rc, timeout: time.Duration(c.TimeoutMS) * time.Millisecond, gz: c.Gzip, items: c.Items, mark: markMain}
 	if c.Headers > 0 {
 		opts.headers = map[string]string{}
 		for _, kv := range caseHeaders[:c.Headers] {
@@ -866,7 +923,7 @@ func execute(c Case) (ob observation) {
 		// same kind, same options (gzip, retry, timeout, headers); a role header
 		// lets the collector keep its requests apart; different payload
 		o2 := opts
-		o2.mark, o2.proxy = markOther, nil
+		o2.mark, o2.proxy, o2.life = markOther, nil, ""
 		o2.headers = map[string]string{roleHeader: "interferer"}
 		for k, v := range opts.headers {
 			o2.headers[k] = v
@@ -921,6 +978,18 @@ func execute(c Case) (ob observation) {
 		mu.Lock()
 		ob.shutdownAt = t
 		mu.Unlock()
+	}
+	switch c.Life {
+	case "start_twice":
+		if h.start != nil {
+			ob.secondStartErr = h.start(context.Background())
+		}
+	case "shutdown_then_export":
+		bounded(5*time.Second, func() {
+			sctx, sc := context.WithTimeout(context.Background(), time.Second)
+			_ = h.shutdown(sctx)
+			sc()
+		})
 	}
 	if c.Warmup {
 		col.warm.Store(true)
@@ -1146,6 +1215,12 @@ func evaluate(c Case, ob observation) []vk.Violation {
 	}
 	if !ob.returned && !ob.abortOverrun {
 		bad("export_blocked_beyond_budget", "Export did not return within the script's budget %v + %v", budget(c), blockMargin)
+	}
+	if c.Life == "shutdown_then_export" {
+		// An export through an exporter that has been shut down: the six
+		// exporters document different results (an error, or nil and the data
+		// dropped); the statement only says that it never blocks.
+		return vs
 	}
 	shortTO := c.TimeoutMS > 0 && c.TimeoutMS <= shortTimeout
 	// nothing but the scripted answers can have ended an attempt or the call
@@ -1409,6 +1484,40 @@ func classify(c Case, ob observation) vk.Info {
 	}
 	info.ClassIf(c.Gzip, "gzip")
 	info.Class(fmt.Sprintf("headers=%d", c.Headers))
+	if c.Life != "" {
+		info.Class("life=" + c.Life)
+		switch c.Life {
+		case "shutdown_then_export":
+			res := "nil"
+			if ob.err != nil {
+				res = "error"
+			}
+			if !ob.returned {
+				res = "blocked"
+			}
+			info.Class(fmt.Sprintf("%s:export_after_shutdown=>%s,attempts=%d", c.Exporter, res, len(es)))
+		case "start_twice":
+			info.ClassIf(ob.secondStartErr != nil, c.Exporter+":second_start_returned_an_error")
+			info.ClassIf(ob.secondStartErr == nil, c.Exporter+":second_start_returned_nil")
+		case "shutdown_before_start":
+			info.Class(c.Exporter + ":life=shutdown_before_start,plan=" + c.Plan)
+		}
+	}
+	for _, e := range es {
+		if e.Step < len(c.Script) && c.Script[e.Step].Kind == "status" {
+			code := c.Script[e.Step].Code
+			switch {
+			case ex.grpc && code > 16:
+				info.Class("grpc_code_out_of_range_answered")
+			case !ex.grpc && code >= 505:
+				info.Class("http_5xx_above_504_answered")
+			case !ex.grpc && code >= 300 && code < 400:
+				info.Class("http_3xx_answered")
+			case !ex.grpc && code >= 400 && code < 500 && code != 429 && code != 400 && code != 401 && code != 404 && code != 408:
+				info.Class("http_unusual_4xx_answered")
+			}
+		}
+	}
 	if c.HugeRetryAfter != "" {
 		for i, e := range es {
 			if e.Step >= len(c.Script) || c.Script[e.Step].RetryAfter != c.HugeRetryAfter || e.Outcome != oRetryable {
@@ -1640,13 +1749,13 @@ var known = map[string]func(Case, vk.Violation) bool{
 }
 
 const ruleCommon = "one export per case against a scripted loopback collector; script of 1..7 answers, retry config {disabled, 1ms/5ms backoff with MaxElapsedTime 0/20ms/500ms/5s, 400ms backoff, 10min backoff}, " +
-	"exporter timeout {default, 15s/30s, 100/200ms with held requests}, gzip on/off, WithHeaders with 0/1/2 pairs, exporter age (export made MaxElapsedTime(300/500ms)+150ms after construction, optionally after a first successful export on the same instance), optionally 1-2 interfering exports of another payload through a second exporter instance while the export waits for its retry, plan {none, ctx cancelled before, cancel while attempt K is held, cancel / Shutdown after answer K, and for the two trace exporters Shutdown(200/300 ms deadline) during a 10 min back-off wait / a held attempt}; " +
+	"exporter timeout {default, 15s/30s, 100/200ms with held requests}, exporter life cycle {New; trace: NewUnstarted->Shutdown->Start, Start twice; all: Shutdown before the export}, gzip on/off, WithHeaders with 0/1/2 pairs, exporter age (export made MaxElapsedTime(300/500ms)+150ms after construction, optionally after a first successful export on the same instance), optionally 1-2 interfering exports of another payload through a second exporter instance while the export waits for its retry, plan {none, ctx cancelled before, cancel while attempt K is held, cancel / Shutdown after answer K, and for the two trace exporters Shutdown(200/300 ms deadline) during a 10 min back-off wait / a held attempt}; " +
 	"non-trivial = the script contains a retryable answer followed by something; distinct = distinct case encodings"
 
 func TestHTTPRetry(t *testing.T) {
 	vk.Run(t, vk.Spec[Case]{
 		Property: "C14", Check: "http_retry",
-		Rule: "otlptracehttp / otlpmetrichttp / otlploghttp: answers over {200, 200+partial success, 400, 401, 404, 408, 429, 500, 502, 503, 504, connection closed (FIN/RST), slow, held, client-side temporary / non-temporary network error injected through WithProxy} x Retry-After {absent, 0, 1, 2, garbage; in ~1/21 of the cases 2147483648 / 4294967295 / 4294967296 / 4500000000 with a 300/500 ms budget or 2200000000 with a 5 s budget}; " +
+		Rule: "otlptracehttp / otlpmetrichttp / otlploghttp: answers over {200, 200+partial success, the whole 3xx(not followed)/4xx/5xx range incl. 505-511, 520-530, 598, 599, connection closed (FIN/RST), slow, held, client-side temporary / non-temporary network error injected through WithProxy} x Retry-After {absent, 0, 1, 2, garbage; in ~1/21 of the cases 2147483648 / 4294967295 / 4294967296 / 4500000000 with a 300/500 ms budget or 2200000000 with a 5 s budget}; " +
 			"Retry-After >= 1 on a retryable answer in 1/16 of the cases (~25 per exporter in quick) (each costs >= 1 s once the unit defect is repaired); " + ruleCommon,
 		Quick: 150, Thorough: 1800,
 		Gen: genCase(false), Run: run, Known: known,
@@ -1657,7 +1766,7 @@ func TestHTTPRetry(t *testing.T) {
 func TestGRPCRetry(t *testing.T) {
 	vk.Run(t, vk.Spec[Case]{
 		Property: "C14", Check: "grpc_retry",
-		Rule:  "otlptracegrpc / otlpmetricgrpc / otlploggrpc: answers over {OK, OK+partial success, every codes.Code 1..16, slow, held} x RetryInfo {absent, 0, 30ms, 300ms}; " + ruleCommon,
+		Rule:  "otlptracegrpc / otlpmetricgrpc / otlploggrpc: answers over {OK, OK+partial success, every codes.Code 1..16 and the undefined 17 / 99, slow, held} x RetryInfo {absent, 0, 30ms, 300ms}; " + ruleCommon,
 		Quick: 110, Thorough: 1300,
 		Gen: genCase(true), Run: run, Known: known,
 		CaseTimeout: 5 * time.Minute, ShrinkTime: 12 * time.Second,
